@@ -8,8 +8,9 @@
   types_C12          class -> (attribute -> type of the values it holds, type of unlisted attributes); the types are
                      the constructors' type annotations (typing.get_type_hints; for attributes read back through
                      another property and for content added through add_*: the property's return annotation); an
-                     annotated class stands for its registered subclasses; None is an alternative iff the attribute of
-                     an instance built with every optional argument at its default reads back None
+                     annotated class stands for its registered subclasses; None (or whatever leaf value the
+                     setter stores for a missing argument) is an alternative iff the attribute of an instance built
+                     with every optional argument at its default holds it
 
 Fail-closed: a class of the anchored modules that defines __eq__/__hash__ and is neither registered in
 c12_classes.CLASSES nor listed in NOT_ELEMENTS raises; a constructor parameter without a spec entry is caught by the
@@ -99,8 +100,10 @@ def ty_alts(t):
     raise RuntimeError(f"C12 tables: type annotation {t!r} has no counterpart in the model's type language")
 
 
-def ty_term(t, none=False):
-    alts = (["ANone"] if none else []) + ty_alts(t)
+def ty_term(t, default_alt=None):
+    alts = ty_alts(t)
+    if default_alt is not None and default_alt not in alts and not (default_alt == "AInt" and "ANum" in alts):
+        alts = [default_alt] + alts
     return "(TY " + qlist(alts) + ")"
 
 
@@ -129,16 +132,21 @@ def attr_annotations(name, cls):
     return out
 
 
-def default_none(name):
-    """attributes that read back None on an instance built with every optional argument at its default"""
-    if name in K.STATE_NAMES or name == "SignalState":
-        return set()  # unset attributes are absent, not None
+LEAF_ALT = {"none": "ANone", "b": "ABool", "i": "AInt", "f": "ANum", "s": "AStr", "e": "AEnum", "a": "AArr"}
+
+
+def default_alts(name):
+    """attribute -> alternative of the value an instance built with every optional argument at its default holds,
+    when that is a leaf (None, or what the setter stores instead of None, e.g. GeoTransformation.geo_reference = 0)"""
+    if name in ("CustomState", "SignalState"):
+        return {}  # unset attributes are absent, not None
     spec = K.minimal_spec(name, random.Random(12))
     obj, err = K.try_build(spec)
     if obj is None:
         raise RuntimeError(f"C12 tables: the default instance of {name} cannot be built: {err}")
     rb = K.readback(obj)
-    return {a for a, v in rb[2] if v[0] == "none"}
+    given = set(spec["kw"])
+    return {a: LEAF_ALT[v[0]] for a, v in rb[2] if v[0] in LEAF_ALT and a not in given}
 
 
 def types_rows():
@@ -158,8 +166,8 @@ def types_rows():
             rows.append(f"  ({qstr(name)}, ([], Some (TY {qlist(state_any)})))")
             continue
         ann = attr_annotations(name, cls)
-        nones = default_none(name)
-        ent = [f"({qstr(a)}, {ty_term(t, a in nones)})" for a, t in ann.items()]
+        dflt = default_alts(name)
+        ent = [f"({qstr(a)}, {ty_term(t, dflt.get(a))})" for a, t in ann.items()]
         rows.append(f"  ({qstr(name)}, ({qlist(ent)}, None))")
     return rows
 
